@@ -27,6 +27,16 @@ SetMax(S) == CHOOSE m \in S : \A x \in S : x <= m
 IvtLen == 32          \* D1 00 20 4x + 7 words
 BdLen == 12           \* start, length, plugin
 XmcdAt == 64          \* XMCD is found by the ROM at IVT + 0x40 (no pointer)
+XmcdHdr == 4          \* XMCD header word: tag C | version 0 | interface | instance | block type | 12-bit block size (header included)
+\* The XMCD blocks that exist for RT116x / RT117x (the only HAB devices with an XMCD): interface 0 = FlexSPI RAM, 1 = SEMC SDRAM;
+\* block type 0 = simplified, 1 = full; size = whole block in bytes.  Golden blocks of every kind: anchors/C07/xmcd.
+XmcdKinds == [ fsr_s0  |-> [iface |-> 0, btype |-> 0, size |-> 8],     \* FlexSPI RAM simplified, option size 0 (option word 0 only)
+               fsr_s1  |-> [iface |-> 0, btype |-> 0, size |-> 12],    \* FlexSPI RAM simplified, option words 0 and 1
+               sdram_s |-> [iface |-> 1, btype |-> 0, size |-> 13],    \* SEMC SDRAM simplified (9 bytes, not a multiple of 4)
+               sdram_f |-> [iface |-> 1, btype |-> 1, size |-> 72],    \* SEMC SDRAM full
+               fsr_f   |-> [iface |-> 0, btype |-> 1, size |-> 516] ]  \* FlexSPI RAM full: 512 bytes of configuration + header (the biggest)
+XmcdKindNames == DOMAIN XmcdKinds
+XmcdMax == 516        \* no XMCD block is bigger than the biggest kind ("raw" blocks of the generator stay within 8..XmcdMax)
 BlobHdr == 8          \* DEK blob: 8-byte header + key + 48 bytes of wrapping overhead
 BlobOvh == 48
 BlobSpan == 512       \* space reserved behind the CSF for the DEK blob by CST
@@ -53,7 +63,7 @@ LayoutOK(p, L, csfDataLen) ==
   /\ L.bd >= IvtLen /\ L.bd % 4 = 0
   /\ L.app = AppAt(p) /\ L.bd + BdLen <= L.app
   /\ (p.cfgKind # "none" => L.cfg >= L.bd + BdLen /\ L.cfg + p.cfgLen <= L.app)
-  /\ (p.cfgKind = "xmcd" => L.cfg = XmcdAt)
+  /\ (p.cfgKind = "xmcd" => L.cfg = XmcdAt /\ p.cfgLen > XmcdHdr /\ p.cfgLen <= XmcdMax)
   /\ (p.flags # "plain" => L.csf >= L.app + p.appLen /\ L.csf % 4 = 0 /\ L.csf + csfDataLen <= L.fileLen)
   /\ (p.flags = "enc" => L.blob >= L.csf + csfDataLen)
   /\ L.bdLen >= p.ivtOff + (IF p.flags = "plain" THEN L.app + p.appLen
